@@ -23,7 +23,8 @@ DRIVERS = os.path.join(VERIF, "drivers")
 # worktree (VERIF_REPO set by harness/seedtest.py, seed_regress.py) must never rewrite it
 EVIDENCE = (os.path.join(VERIF, "evidence") if os.path.realpath(REPO) == "/repo"
             else os.path.join(tempfile.gettempdir(), "verif-scratch-evidence-%d" % os.getpid()))
-REPLAY = os.path.join(VERIF, "replay")
+REPLAY = (os.path.join(VERIF, "replay") if os.path.realpath(REPO) == "/repo"
+          else os.path.join(tempfile.gettempdir(), "verif-scratch-replay-%d" % os.getpid()))
 NCPU = min(16, os.cpu_count() or 4)
 GUARD = "OVNI_VERIF"
 
